@@ -2,48 +2,46 @@
 from harness.framework import *
 
 
-def cases_valid(res):
-    from circuitpython_nrf24l01.network.structs import is_address_valid
+class C15(PropCheck):
+    prop = "C15"
+    rule = ("exhaustive enumeration of the 16-bit address space through is_address_valid; "
+            "every case is a distinct input and counts as non-trivial")
+    assumptions = ["header fields are unsigned 16-bit after struct.unpack; negative or None "
+                   "arguments are outside the model"]
+    exhaustive = True
 
-    def mk(a):
-        return Case(f"valid {a}", lambda a=a: "1" if is_address_valid(a) else "0", "valid-exhaustive",
-                    nontrivial=lambda o: True)
-
-    res.exhaustive_blocks.append("is_address_valid over all 65536 16-bit values")
-    return [mk(a) for a in range(65536)]
-
-
-def judge_valid(bad):
-    """spec: Nrf.Spec.validAddrB evaluated by the driver against the implementation's answer"""
-    out = []
-    if not bad:
-        return out
-    spec = run_driver(["spec" + c.line for c, _, _ in bad])
-    for (c, io, mo), so in zip(bad, spec):
-        if io != so:
-            a = int(c.line.split()[1])
-            out.append(Finding(c.line, f"is_address_valid({a} = {oct(a)}) returns {io}, the property demands {so}",
-                               {"impl": io, "model": mo, "spec": so}))
-    return out
-
-
-def run(tier: str) -> int:
-    res = Result("C15", tier, seed_of())
-    a = audit("C15", thorough=(tier == "thorough"))
-    broken = list(a.problems)
-    viol = []
-    bad = correspond(res, cases_valid(res))
-    viol += judge_valid(bad)
-    if bad and not viol:
-        broken += [f"correspondence: {c.line}: impl={io} model={mo}" for c, io, mo in bad[:20]]
-    if broken and not viol:
-        # search: the spec against the implementation on the whole (finite) domain
+    def impl(self, line):
         from circuitpython_nrf24l01.network.structs import is_address_valid
-        allc = [(Case(f"valid {x}", None), "1" if is_address_valid(x) else "0", "") for x in range(65536)]
-        viol += judge_valid(allc)
-    return finish(
-        res, a, viol, broken,
-        rule="exhaustive enumeration of the 16-bit address space through is_address_valid; every case is distinct and counts",
-        assumptions=["header fields are unsigned 16-bit after struct.unpack; negative or None arguments are outside the model"],
-        exhaustive=True,
-    )
+        op, *args = line.split()
+        if op == "valid":
+            return "1" if is_address_valid(int(args[0])) else "0"
+        raise Infra("unknown op " + op)
+
+    def cases(self, res, tier, rng):
+        res.exhaustive_blocks.append("is_address_valid over all 65536 16-bit values")
+        return [(f"valid {a}", "valid-exhaustive") for a in range(65536)]
+
+    def nontrivial(self, line, io):
+        return True
+
+    def judge(self, triples):
+        """spec: Nrf.Spec.validAddrB evaluated by the driver against the implementation's answer"""
+        out = []
+        tr = [t for t in triples if t[0].startswith("valid ")]
+        if not tr:
+            return out
+        spec = run_driver(["spec" + l for l, _, _ in tr])
+        for (l, io, mo), so in zip(tr, spec):
+            if io != so:
+                a = int(l.split()[1])
+                out.append(Finding(l, f"is_address_valid({a} = {oct(a)}) returns {io}, the property demands {so}",
+                                   {"impl": io, "model": mo, "spec": so}))
+        return out
+
+
+def run(tier):
+    return run_check(C15(), tier)
+
+
+def replay(path):
+    return replay_generic(C15(), path)
